@@ -22,11 +22,17 @@ def _mutants(prop: str):
     return getattr(m, "MUTANTS", []), getattr(m, "BENIGN", [])
 
 
-def apply(ss: SourceSet, file: str, old: str, new: str) -> SourceSet | None:
-    t = ss.text(file)
-    if t.count(old) != 1:
-        return None
-    return ss.overlay({ss.rel(file): t.replace(old, new)})
+def apply(ss: SourceSet, file, old, new) -> SourceSet | None:
+    """file/old/new may be parallel lists (several edits, possibly in several files)."""
+    if isinstance(file, str):
+        file, old, new = [file], [old], [new]
+    texts: dict[str, str] = {}
+    for f, o, n in zip(file, old, new):
+        t = texts.get(f, ss.text(f))
+        if t.count(o) != 1:
+            return None
+        texts[f] = t.replace(o, n)
+    return ss.overlay({ss.rel(f): t for f, t in texts.items()})
 
 
 def verdicts(prop: str, ss: SourceSet):
